@@ -399,7 +399,7 @@ func c02Enum() []*xp.Node {
 var c02EnumList = c02Enum()
 
 func (p *c02) NumCases(tier string, seed int64) int {
-	return len(c02EnumList) + tierN(tier, 20000, 600000)
+	return len(c02EnumList) + tierN(tier, 50000, 4800000)
 }
 
 func (p *c02) gen(tier string, seed int64, idx int) *xp.Node {
